@@ -16,7 +16,7 @@ import (
 func init() {
 	register(&Prop{
 		ID: "C19", Level: "exploration", DesignRef: "DESIGN.md section 4 C19",
-		Rule: "even cases: 400 (quick) / 4000 (thorough) series of length 0..200 (sorted, reversed, shuffled, constant, with ties, with a common offset 1e3..1e8 times the spread, magnitudes " +
+		Rule: "even cases: 400 (quick) / 4000 (thorough) series of length 0..200 and the block sizes 127..1024 (sorted, reversed, shuffled, constant, with ties, with a common offset 1e3..1e8 times the spread, magnitudes " +
 			"1e-12..1e12) - Min, Max, Sum, Mean, MeanVariance, Median, Q25, Q75, Variance, StdDev against textbook definitions on a sorted " +
 			"copy (empirical quantile = sorted[ceil(p*n)-1]), for three permutations of the same data, the caller's slice must stay " +
 			"untouched, no panic, NaN (0 for the sum) on the empty series; odd cases: 40 / 150 synthetic experiments (0-4 trials x 0-6 " +
@@ -54,6 +54,8 @@ func genSeries(r *rand.Rand) ([]float64, string) {
 		n = 1
 	case 2:
 		n = 2 + r.Intn(3)
+	case 3:
+		n = pick(r, 127, 128, 129, 255, 256, 257, 384, 512, 640, 1024) // block sizes of chunked algorithms
 	default:
 		n = 2 + r.Intn(199)
 	}
@@ -281,6 +283,7 @@ func genSynthExperiment(r *rand.Rand, pool []*genetics.Genome) *synthExperiment 
 	se := &synthExperiment{exp: &experiment.Experiment{Id: r.Intn(100), Name: pick(r, "synth", "", "xor run", "exp-7")}}
 	nt := r.Intn(5)
 	fitSeq := 0
+	negHuge := r.Intn(8) == 0
 	for ti := 0; ti < nt; ti++ {
 		tr := experiment.Trial{Id: ti}
 		ng := r.Intn(7)
@@ -296,6 +299,10 @@ func genSynthExperiment(r *rand.Rand, pool []*genetics.Genome) *synthExperiment 
 			fitSeq++
 			// distinct champion fitness so that the best organism of a trial is unique
 			fit := math.Abs(r.NormFloat64())*10 + float64(fitSeq)*1e-6
+			if negHuge {
+				// a fitness that is a negated error of a diverging network: far below zero
+				fit = -(1e19 + math.Abs(r.NormFloat64())*1e22 + float64(fitSeq)*1e8)
+			}
 			org, _ := genetics.NewOrganism(fit, g, gi)
 			sp := genetics.NewSpecies(1 + r.Intn(9))
 			sp.Age = 1 + r.Intn(30)
